@@ -45,13 +45,23 @@ inductive ResultX where
 inductive CallX where
   /-- the calls of `TT/Proc.lean` (they work on the nodes they are given) -/
   | base (c : Call)
-  /-- a reader call: `src` is what the reader computes from the text and its options (`readExport io text`, …); a reader
-      that fails part-way has created `drawn` nodes before -/
+  /-- a reader call: `src` is what the reader computes from the text and its options (`readExport io text`, …);
+      `drawn` = the number of nodes the reader has created and NOT delivered: a reader that fails part-way has created
+      `drawn` nodes before; a reader that succeeds has created `drawn` nodes for sentences it then SKIPPED (TIGER-XML:
+      a sentence with several roots, a cycle or two incoming edges is dropped by `tigerxml_build_tree` after all its
+      `<t>`/`<nt>` nodes have drawn their ids, treeinput.py `tigerxml`) -/
   | read (src : Except Err (List (Nat × Tree))) (drawn : Nat)
 
+/-- (wave 19) a successful reader call also moves the counter by the `drawn` ids of the sentences it skipped.
+    ABSTRACTED: the model adds them AFTER the delivered sentences have been stamped, the implementation draws them where
+    the skipped sentence stands in the file.  So the counter after the call (and with it the ids of all LATER calls)
+    agrees with the implementation; inside a call with a skipped sentence the delivered sentences behind it carry ids
+    that are lower by the ids of the skipped ones before them (same block sizes, same order, every id fresh).  The
+    history theorems (`historyX_independent`, `historyY_independent`) are up to renaming of the ids, for which only
+    freshness matters. -/
 def CallX.run (fs : Str → Option Str) (st : ProcStateX) : CallX → ResultX × ProcStateX
   | .base c => let r := c.run fs st.base; (.tree r.1, { st with base := r.2 })
-  | .read (.ok ts) _ => let r := stampAll st.nextId ts; (.trees (.ok r.1), { st with nextId := r.2 })
+  | .read (.ok ts) drawn => let r := stampAll st.nextId ts; (.trees (.ok r.1), { st with nextId := r.2 + drawn })
   | .read (.error e) drawn => (.trees (.error e), { st with nextId := st.nextId + drawn })
 
 def runHistoryX (fs : Str → Option Str) : ProcStateX → List CallX → List ResultX
